@@ -25,6 +25,8 @@ impl<'a, T> MMWriter<'a, T> {
     where
         T: Copy,
     {
+        #[cfg(kmertools_verif)]
+        crate::verif::log(crate::verif::Ev::Write { pos, len: data.len(), cap: self.slice.len() });
         ptr::copy_nonoverlapping(data.as_ptr(), self.slice[pos].get(), data.len());
     }
 }
